@@ -255,7 +255,7 @@ func runC05(c *Ctx) {
 	pb := c.Pick(3, 4)
 	for _, kind := range []string{"simple", "precise", "lookup", "predicate"} {
 		for _, tr := range [][]int{{3, 1, 5}, {3, 0, 1 << 30}, {2, 2, 7}} {
-			c.Explore(c05Concurrent(kind, tr, 2), mc.Options{PreemptBound: pb})
+			c.Explore(c05Concurrent(kind, tr, 2), mc.Options{PreemptBound: pb, NoCache: true})
 			c.Explore(c05Concurrent(kind, tr, 3), mc.Options{PreemptBound: c.Pick(2, 3)})
 		}
 	}
